@@ -225,7 +225,9 @@ class SiteWorld:
         self.far_k = far_points(rng, self.G, N, self.sites_k, radius + 0.8)
         self.labels = labels or [f'L{i % 2}' for i in range(n_sites)]
         self.species = species
-        self.structure = Structure(lattice=self.lattice, species=[site_species] * n_sites,
+        # the sites may come with a cell of their own (scaled copy of the simulation cell): only their fractional coordinates count
+        self.site_cell_scale = float(rng.choice([1.0, 1.0, 1.15, 0.9]))
+        self.structure = Structure(lattice=Lattice(self.M * self.site_cell_scale), species=[site_species] * n_sites,
                                    coords=np.array(self.sites_k) / N, labels=self.labels)
         self.Minv = np.linalg.inv(self.M)
 
@@ -267,6 +269,25 @@ class SiteWorld:
                 species.append(sp)
         from pymatgen.core import Species
         species = [Species(x) if isinstance(x, str) else x for x in species]
+        if not extra_species and self.rng.random() < 0.5:
+            # atoms of another species stored BEFORE and BETWEEN the floating ones (static, far from every site): indices reported by
+            # the site analysis count the floating atoms only
+            A = coords.shape[1]
+            n_other = int(self.rng.integers(1, 3))
+            far = np.array(self.far_k[int(self.rng.integers(0, len(self.far_k)))]) / self.N
+            order = ['f'] * A + ['o'] * n_other
+            order[0], order[-1] = order[-1], order[0]          # an 'o' first
+            self.rng.shuffle(order[1:])
+            cols, sp2, fi = [], [], 0
+            for tag in order:
+                if tag == 'f':
+                    cols.append(coords[:, fi, :])
+                    sp2.append(species[fi])
+                    fi += 1
+                else:
+                    cols.append(np.tile(far[None, :], (coords.shape[0], 1)) + np.array([self._offset_frac(0.01) for _ in range(coords.shape[0])]))
+                    sp2.append(Species('O' if self.species != 'O' else 'S'))
+            coords, species = np.stack(cols, axis=1), sp2
         return Trajectory(species=species, coords=coords, lattice=self.lattice, time_step=time_step,
                           metadata={'temperature': temperature})
 
@@ -299,8 +320,14 @@ def perturb(traj, rng, p=0.6):
     if rng.random() > p:
         return traj
     for _ in range(int(rng.integers(1, 4))):
-        k = int(rng.integers(0, 7))
-        if k == 0:
+        k = int(rng.integers(0, 10))
+        if k == 7:
+            traj.apply_drift_correction()                 # returns a new trajectory; the source is not its business
+        elif k == 8:
+            traj.drift(), traj.center_of_mass()
+        elif k == 9 and len(traj) > 3:
+            traj.split(2), list(traj)[0]
+        elif k == 0:
             traj.positions
         elif k == 1:
             traj.displacements
